@@ -297,6 +297,12 @@ func bestPracticesCheck(token jwt.Token) error {
 		return errors.New("token expires too long after iat")
 	}
 
+	// Ensure the expiration occurs after NotBefore. This also rejects exp=0, which jwt.Validate treats as "no expiration"
+	// and would otherwise yield a credential that never expires.
+	if !token.Expiration().After(token.NotBefore()) {
+		return errors.New("token exp must occur after nbf")
+	}
+
 	// Ensure the IssuedAt is <= the NotBefore date
 	if token.IssuedAt().After(token.NotBefore()) {
 		return errors.New("token nbf occurs before iat")
